@@ -147,15 +147,16 @@ type vChk struct {
 }
 
 type vEvent struct {
-	Sched string `json:"sched"`
-	N     int    `json:"n"`
-	Ev    string `json:"ev"`
-	Step  *vStep `json:"step,omitempty"`
-	Err   string `json:"err,omitempty"`
-	Panic string `json:"panic,omitempty"`
-	Post  *vPost `json:"post,omitempty"`
-	Chk   *vChk  `json:"chk,omitempty"`
-	Info  string `json:"info,omitempty"`
+	Sched string    `json:"sched"`
+	N     int       `json:"n"`
+	Ev    string    `json:"ev"`
+	Step  *vStep    `json:"step,omitempty"`
+	Err   string    `json:"err,omitempty"`
+	Panic string    `json:"panic,omitempty"`
+	Post  *vPost    `json:"post,omitempty"`
+	Chk   *vChk     `json:"chk,omitempty"`
+	Info  string    `json:"info,omitempty"`
+	Raw   []vRawRec `json:"raw,omitempty"`
 }
 
 // ---------------------------------------------------------------- encoding
@@ -317,8 +318,14 @@ func (r *vRef) replay(n uint64, stream *outputstream.OutputStream) (srv *ircserv
 			break
 		}
 		if e.Kind == "cmd" {
-			m := robust.NewMessageFromBytes(vEncode(vMsg(e, r.mod[e.Idx]), false), robust.IdFromRaftIndex(e.Idx))
-			f.applyRobustMessage(&m, srv, stream)
+			m := robust.NewMessageFromBytes(vEncode(vMsg(e, false), false), robust.IdFromRaftIndex(e.Idx))
+			if r.mod[e.Idx] {
+				// "the log minus that entry, duplicate marker advanced" -- deliberately
+				// NOT through applyRobustMessage's MessageOfDeath case
+				srv.UpdateLastClientMessageID(&m)
+			} else {
+				f.applyRobustMessage(&m, srv, stream)
+			}
 		}
 		reached = e.Idx
 	}
@@ -1055,8 +1062,14 @@ func vRunSchedule(s *vSchedule, base string, seq int, emit func(vEvent)) {
 		st := s.Steps[i]
 		ev := vEvent{Sched: s.Name, N: i, Ev: st.A, Step: &st}
 		if st.A == "ApplyPanics" {
-			// the process is expected to die inside this step
-			emit(vEvent{Sched: s.Name, N: i, Ev: "AboutToPanic", Step: &st})
+			// the process is expected to die inside this step: put the entry into the
+			// raft log first (as raft does) and record the store's raw content
+			if e, ok := n.byIdx[st.I]; ok && st.I > n.stored {
+				if err := n.logstore.StoreLogs([]*raft.Log{vRaftLog(e, n.s.Proto)}); err == nil {
+					n.stored = st.I
+				}
+			}
+			emit(vEvent{Sched: s.Name, N: i, Ev: "AboutToPanic", Step: &st, Raw: vRawDump(n.logstore)})
 		}
 		func() {
 			defer func() {
@@ -1144,35 +1157,30 @@ func TestVerifFSM(t *testing.T) {
 	emit(vEvent{Sched: "", N: seq, Ev: "Done"})
 }
 
-// TestVerifFSMDumpLog dumps the raw raft log store of $VERIF_FSM_DIR/raftlog:
-// key -> value bytes (hex) plus the decoded entry, for the C07 parent.
-func TestVerifFSMDumpLog(t *testing.T) {
-	dir := os.Getenv("VERIF_FSM_DUMPDIR")
-	outp := os.Getenv("VERIF_FSM_OUT")
-	if dir == "" || outp == "" {
-		t.Skip("VERIF_FSM_DUMPDIR / VERIF_FSM_OUT not set")
-	}
-	st, err := raftstore.NewLevelDBStore(filepath.Join(dir, "raftlog"), false, false)
-	if err != nil {
-		t.Fatal(err)
-	}
-	defer st.Close()
-	type rec struct {
-		Idx      uint64          `json:"idx"`
-		Hex      string          `json:"hex"`
-		RaftType int             `json:"rafttype"`
-		Term     uint64          `json:"term"`
-		DataEnc  string          `json:"data_enc"` // "proto" | "json" | ""
-		Msg      *robust.Message `json:"msg,omitempty"`
-		Err      string          `json:"err,omitempty"`
-	}
-	var recs []rec
+type vRawRec struct {
+	Idx      uint64          `json:"idx"`
+	Hex      string          `json:"hex"`
+	RaftType int             `json:"rafttype"`
+	Term     uint64          `json:"term"`
+	DataEnc  string          `json:"data_enc"` // "proto" | "json" | ""
+	StoreEnc string          `json:"store_enc"`
+	Msg      *robust.Message `json:"msg,omitempty"`
+	Err      string          `json:"err,omitempty"`
+}
+
+// vRawDump lists the raft log store: raw value bytes and the decoded entry.
+func vRawDump(st *raftstore.LevelDBStore) []vRawRec {
+	recs := []vRawRec{}
 	it := st.GetBulkIterator(0, math.MaxUint64)
+	defer it.Release()
 	for ok := it.First(); ok; ok = it.Next() {
 		if len(it.Key()) != 8 {
 			continue
 		}
-		r := rec{Idx: binary.BigEndian.Uint64(it.Key()), Hex: fmt.Sprintf("%x", it.Value())}
+		r := vRawRec{Idx: binary.BigEndian.Uint64(it.Key()), Hex: fmt.Sprintf("%x", it.Value()), StoreEnc: "json"}
+		if len(it.Value()) > 0 && it.Value()[0] == 'p' {
+			r.StoreEnc = "proto"
+		}
 		var l raft.Log
 		if err := st.GetLog(r.Idx, &l); err != nil {
 			r.Err = err.Error()
@@ -1198,7 +1206,23 @@ func TestVerifFSMDumpLog(t *testing.T) {
 		}
 		recs = append(recs, r)
 	}
-	it.Release()
+	return recs
+}
+
+// TestVerifFSMDumpLog dumps the raw raft log store of $VERIF_FSM_DIR/raftlog:
+// key -> value bytes (hex) plus the decoded entry, for the C07 parent.
+func TestVerifFSMDumpLog(t *testing.T) {
+	dir := os.Getenv("VERIF_FSM_DUMPDIR")
+	outp := os.Getenv("VERIF_FSM_OUT")
+	if dir == "" || outp == "" {
+		t.Skip("VERIF_FSM_DUMPDIR / VERIF_FSM_OUT not set")
+	}
+	st, err := raftstore.NewLevelDBStore(filepath.Join(dir, "raftlog"), false, false)
+	if err != nil {
+		t.Fatal(err)
+	}
+	defer st.Close()
+	recs := vRawDump(st)
 	b, _ := json.Marshal(recs)
 	if err := os.WriteFile(outp, b, 0644); err != nil {
 		t.Fatal(err)
